@@ -70,7 +70,7 @@ out.append("## 11. Seeded changes: which checks catch which\n\nEach change was w
            "something specific to manifest. Each was confirmed by the integrator in a scratch worktree (`tools/seedtest.sh`: the "
            "demonstration passes on the unchanged tree and fails with the change; the baseline suite is unaffected: 155 passed, "
            "the same 13 environment failures) and is kept under `seeded/<id>/` (patch.diff, demo.py, meta.json). No change was "
-           "ever committed to `/repo`. Rows whose id contains `-r2-` … `-r8-` are from the later rounds (each round asked for something the earlier ones had not tried: rare branches, order of operations inside a step, helpers in other files, unusual-but-legal configurations, later episodes). " + str(len(rows) - sum('initially MISSED' in r for r in rows)) + " of the " + str(len(rows)) + " were detected by the checks as they stood when the change arrived; the " + str(sum('initially MISSED' in r for r in rows)) + " marked *initially "
+           "ever committed to `/repo`. Rows whose id contains `-r2-` … `-r9-` are from the later rounds (each round asked for something the earlier ones had not tried: rare branches, order of operations inside a step, helpers in other files, unusual-but-legal configurations, later episodes). " + str(len(rows) - sum('initially MISSED' in r for r in rows)) + " of the " + str(len(rows)) + " were detected by the checks as they stood when the change arrived; the " + str(sum('initially MISSED' in r for r in rows)) + " marked *initially "
            "MISSED* led to the generator improvements named in the row and are detected now.\n\n"
            "| seeded change | property | what it does | detected by |\n|---|---|---|---|\n" + "\n".join(rows) + "\n\n"
            "---------------------------------------------------------------------------------------\n")
